@@ -288,8 +288,12 @@ func (p *Packer) packWalkFn(root, src, dst string, tarW *tar.Writer, meta *Meta,
 
 			// If the target is a directory we can recurse into the target
 			// directory by calling the packWalkFn with updated arguments.
+			// The entries found there are named after the position of the
+			// link in the archive, which differs from its path on disk when
+			// the link itself sits inside a dereferenced directory.
 			if resolved.info.IsDir() {
-				return filepath.Walk(resolved.absTarget, p.packWalkFn(root, resolved.absTarget, path, tarW, meta, ignoreRules))
+				linkPos := strings.Replace(path, src, dst, 1)
+				return filepath.Walk(resolved.absTarget, p.packWalkFn(root, resolved.absTarget, linkPos, tarW, meta, ignoreRules))
 			}
 
 			// Dereference this symlink by updating the header with the target file
